@@ -256,6 +256,46 @@ func init() {
 				s.Ins[k].Unlock, s.Ins[k].UnlockNil = nil, true
 			})
 		}
+		c.Phase("varint-boundaries") // counts and script lengths on both sides of every length-prefix class boundary
+		{
+			n := uint64(0)
+			mk := func(nin, nout, slen int, where string) {
+				n++
+				if !c.Case(n) {
+					return
+				}
+				r := c.Rand(n)
+				s := gen.Shape{Version: 1 + uint32(r.Intn(2)), LockTime: gen.U32(r)}
+				for k := 0; k < nin; k++ {
+					s.Ins = append(s.Ins, gen.In{TxID: r.Bytes(32), Vout: uint32(r.Intn(5)), Seq: gen.U32(r), Unlock: gen.Push(r.Bytes(1 + r.Intn(4))), PrevSats: uint64(1 + r.Intn(5000)), PrevScript: []byte{}})
+				}
+				for k := 0; k < nout; k++ {
+					s.Outs = append(s.Outs, gen.Out{Sats: uint64(r.Intn(100000)), Script: gen.P2PKH(r.Bytes(20))})
+				}
+				switch where {
+				case "out":
+					s.Outs[r.Intn(nout)].Script = append([]byte{0x00, 0x6a}, r.Bytes(slen-2)...)
+				case "unlock":
+					s.Ins[r.Intn(nin)].Unlock = append([]byte{0x6a}, r.Bytes(slen-1)...)
+				}
+				txk(c, &c16Tx{Shape: s, Stage: "boundary:" + where})
+			}
+			counts := []int{252, 253, 254, 255, 256}
+			lens := []int{252, 253, 254, 255, 256, 65535, 65536, 65537}
+			if c.Thorough {
+				counts = append(counts, 65535, 65536, 65537)
+				lens = append(lens, 100000, 1<<20)
+			}
+			for _, k := range counts {
+				mk(k, 2, 0, "input-count")
+				mk(2, k, 0, "output-count")
+			}
+			mk(253, 253, 0, "both-counts")
+			for _, l := range lens {
+				mk(2, 2, l, "out")
+				mk(2, 2, l, "unlock")
+			}
+		}
 		c.Phase("library-built")
 		nb := 300
 		if c.Thorough {
@@ -631,6 +671,7 @@ func c16TxDialects(c *mon.Ctx, tx *bt.Tx, stage string) {
 }
 
 func c16JudgeTx(c *mon.Ctx, in *c16Tx) {
+	ownerEditsDecodedEmpties(c)
 	c.Eval(1)
 	if in.Shape.Ambiguous() {
 		return
